@@ -120,6 +120,8 @@ func main() {
 			collectConsts(p)
 			collectYieldKeep(p)
 			collectInvkDrops(p)
+			collectYieldStopsTimer(p)
+			collectCancelWaits(p)
 		}
 	}
 	for _, p := range pkgs {
@@ -1767,6 +1769,198 @@ func collectInvkDrops(p *pkgInfo) {
 	}
 }
 
+// yieldStopsTimer: does the first attempt of a final YIELD stop the call's
+// timeout timer on the path that asks for a retry?  cancelWaitsIfSent: does
+// syncCancel take its "mode kill: wait for the callee" early return only
+// inside the select case that queued the INTERRUPT?  Both "Some true" /
+// "Some false" / "None" (shape not decided by this reading).
+var yieldStopsTimer, yieldStopsTimerWhy = "None", "router.(*dealer).syncYield not found"
+var cancelWaitsIfSent, cancelWaitsIfSentWhy = "None", "router.(*dealer).syncCancel not found"
+
+// timerCancelOutsideLits: n contains a timerCancel() call that is not inside a
+// function literal.
+func timerCancelOutsideLits(n ast.Node) bool {
+	found := false
+	ast.Inspect(n, func(x ast.Node) bool {
+		if _, ok := x.(*ast.FuncLit); ok {
+			return false
+		}
+		if c, ok := x.(*ast.CallExpr); ok {
+			if sel, ok := c.Fun.(*ast.SelectorExpr); ok && sel.Sel.Name == "timerCancel" {
+				found = true
+			}
+		}
+		return !found
+	})
+	return found
+}
+
+func findMethod(p *pkgInfo, name string) *ast.FuncDecl {
+	for _, f := range p.files {
+		for _, d := range f.Decls {
+			if fd, ok := d.(*ast.FuncDecl); ok && fd.Name.Name == name && fd.Recv != nil && fd.Body != nil {
+				return fd
+			}
+		}
+	}
+	return nil
+}
+
+func collectYieldStopsTimer(p *pkgInfo) {
+	fn := findMethod(p, "syncYield")
+	if fn == nil {
+		return
+	}
+	where := func(pos token.Pos) string {
+		q := fset.Position(pos)
+		return fmt.Sprintf("%s:%d", filepath.Base(q.Filename), q.Line)
+	}
+	if !hasTimerCancelCall(fn.Body) {
+		yieldStopsTimer, yieldStopsTimerWhy = "None", "syncYield does not call timerCancel at all"
+		return
+	}
+	// the chain of enclosing statement lists of every "return true"
+	var path []ast.Node
+	anyAgain, all := false, true
+	var notes []string
+	ast.Inspect(fn.Body, func(n ast.Node) bool {
+		if n == nil {
+			path = path[:len(path)-1]
+			return true
+		}
+		path = append(path, n)
+		if _, ok := n.(*ast.FuncLit); ok {
+			path = path[:len(path)-1]
+			return false
+		}
+		ret, ok := n.(*ast.ReturnStmt)
+		if !ok || len(ret.Results) != 1 {
+			return true
+		}
+		if v, isLit := boolLit(ret.Results[0]); !isLit || !v {
+			return true
+		}
+		anyAgain = true
+		stopped := false
+	outer:
+		for i := len(path) - 1; i > 0; i-- {
+			child, parent := path[i], path[i-1]
+			var list []ast.Stmt
+			switch b := parent.(type) {
+			case *ast.BlockStmt:
+				list = b.List
+			case *ast.CaseClause:
+				list = b.Body
+			case *ast.CommClause:
+				list = b.Body
+			}
+			for _, st := range list {
+				if st == child {
+					break
+				}
+				if st.End() <= child.Pos() && timerCancelOutsideLits(st) {
+					stopped = true
+					break outer
+				}
+			}
+		}
+		if !stopped {
+			all = false
+			notes = append(notes, where(ret.Pos())+": returns true (retry) and no timerCancel() outside a function literal precedes it")
+		}
+		return true
+	})
+	switch {
+	case !anyAgain:
+		yieldStopsTimer, yieldStopsTimerWhy = "None", "syncYield never returns true (no retry path)"
+	case all:
+		yieldStopsTimer, yieldStopsTimerWhy = "Some true", "a timerCancel() call outside the deferred clean-up precedes every return true"
+	default:
+		yieldStopsTimer, yieldStopsTimerWhy = "Some false", strings.Join(notes, "; ")
+	}
+}
+
+func collectCancelWaits(p *pkgInfo) {
+	fn := findMethod(p, "syncCancel")
+	if fn == nil {
+		return
+	}
+	where := func(pos token.Pos) string {
+		q := fset.Position(pos)
+		return fmt.Sprintf("%s:%d", filepath.Base(q.Filename), q.Line)
+	}
+	// the select that offers the INTERRUPT: a send on <x>.Send() and a default
+	var sel *ast.SelectStmt
+	var sendClause *ast.CommClause
+	ast.Inspect(fn.Body, func(n ast.Node) bool {
+		s, ok := n.(*ast.SelectStmt)
+		if !ok || sel != nil {
+			return true
+		}
+		var send *ast.CommClause
+		hasDefault := false
+		for _, c := range s.Body.List {
+			cc := c.(*ast.CommClause)
+			if cc.Comm == nil {
+				hasDefault = true
+				continue
+			}
+			if ss, ok := cc.Comm.(*ast.SendStmt); ok {
+				if call, ok := ss.Chan.(*ast.CallExpr); ok {
+					if se, ok := call.Fun.(*ast.SelectorExpr); ok && se.Sel.Name == "Send" {
+						send = cc
+					}
+				}
+			}
+		}
+		if send != nil && hasDefault {
+			sel, sendClause = s, send
+		}
+		return true
+	})
+	if sel == nil {
+		cancelWaitsIfSent, cancelWaitsIfSentWhy = "None", "no select { case <x>.Send() <- ...: ...; default: } in syncCancel"
+		return
+	}
+	// the first removal of the call after that select
+	limit := fn.Body.End()
+	ast.Inspect(fn.Body, func(n ast.Node) bool {
+		if c, ok := n.(*ast.CallExpr); ok && c.Pos() > sel.End() && c.Pos() < limit {
+			if id, ok := c.Fun.(*ast.Ident); ok && id.Name == "delete" && len(c.Args) == 2 {
+				if se, ok := c.Args[0].(*ast.SelectorExpr); ok && callTables[se.Sel.Name] {
+					limit = c.Pos()
+				}
+			}
+		}
+		return true
+	})
+	inside, outside := 0, []string{}
+	ast.Inspect(fn.Body, func(n ast.Node) bool {
+		if _, ok := n.(*ast.FuncLit); ok {
+			return false
+		}
+		ret, ok := n.(*ast.ReturnStmt)
+		if !ok || ret.Pos() < sel.Pos() || ret.Pos() > limit {
+			return true
+		}
+		if ret.Pos() >= sendClause.Pos() && ret.End() <= sendClause.End() {
+			inside++
+		} else {
+			outside = append(outside, where(ret.Pos()))
+		}
+		return true
+	})
+	switch {
+	case len(outside) > 0:
+		cancelWaitsIfSent = "Some false"
+		cancelWaitsIfSentWhy = "syncCancel returns with the call still pending at " + strings.Join(outside, ", ") + ", outside the select case (" + where(sendClause.Pos()) + ") that queued the INTERRUPT"
+	case inside > 0:
+		cancelWaitsIfSent, cancelWaitsIfSentWhy = "Some true", "the only early return after the INTERRUPT is offered lies inside the send case at "+where(sendClause.Pos())
+	default:
+		cancelWaitsIfSent, cancelWaitsIfSentWhy = "None", "syncCancel has no early return between the INTERRUPT select and the removal of the call"
+	}
+}
+
 // methodsBySig: "name|signature" -> inventory methods, for interface calls.
 var methodsBySig = map[string][]string{}
 
@@ -1957,6 +2151,9 @@ func emit() string {
 	b.WriteString("Definition gen_submitters : list string := [" + strings.Join(subs, "; ") + "].\n\n")
 	fmt.Fprintf(&b, "Definition gen_send_result_deadline_ms : N := %d.\nDefinition gen_yield_retry_delay_ms : N := %d.\n\n", constMs["sendResultDeadline"], constMs["yieldRetryDelay"])
 	fmt.Fprintf(&b, "(* %s *)\nDefinition gen_yield_retry_keeps_invocation : option bool := %s.\n\n", strings.ReplaceAll(yieldKeepWhy, "*)", "* )"), yieldKeep)
+	cm := func(x string) string { return strings.ReplaceAll(x, "*)", "* )") }
+	fmt.Fprintf(&b, "(* %s *)\nDefinition gen_yield_stops_timer_before_retry : option bool := %s.\n\n", cm(yieldStopsTimerWhy), yieldStopsTimer)
+	fmt.Fprintf(&b, "(* %s *)\nDefinition gen_cancel_waits_only_if_interrupt_sent : option bool := %s.\n\n", cm(cancelWaitsIfSentWhy), cancelWaitsIfSent)
 	b.WriteString("Definition gen_invocation_drops : list (string * string * bool) := [\n")
 	for i, d := range invkDrops {
 		sep := ";"
